@@ -82,7 +82,7 @@ structure Solution where
   objective  : Option Rat
   values     : List (String × Rat)      -- the dict, in insertion order
   iterations : Option Nat
-  deriving Repr, Inhabited
+  deriving DecidableEq, Repr, Inhabited
 
 /-- `Solution(status=FAILED, message=…)` -/
 def failedSolution : Solution := ⟨.failed, none, [], none⟩
@@ -228,7 +228,7 @@ inductive Pass
   | raised (e : Exc)
   | retry                  -- `return solve_scipy(problem, method="trust-constr", …)`
   | done (s : Solution)
-  deriving Repr, Inhabited
+  deriving DecidableEq, Repr, Inhabited
 
 /-- everything after `minimize` returned, for one call of `solve_scipy` -/
 def postPass (c : ScipyCfg) (method : String) (r : ScipyResult) : Pass :=
@@ -402,7 +402,7 @@ structure PState where
 inductive Res (α : Type)
   | ok (a : α)
   | exc (e : Exc)
-  deriving Repr
+  deriving DecidableEq, Repr
 
 /-- state + exceptions; an exception keeps the state reached so far -/
 abbrev M (α : Type) : Type := PState → Res α × PState
@@ -938,15 +938,26 @@ def lookupValue (values : List (String × Rat)) (name : String) : Except Exc Rat
   | some v => .ok v
   | none => .error .key
 
+/-- a Python loop filling a result element by element; the first failing element raises -/
+def mapE {α β} (f : α → Except Exc β) : List α → Except Exc (List β)
+  | [] => .ok []
+  | a :: t =>
+    match f a with
+    | .error e => .error e
+    | .ok b =>
+      match mapE f t with
+      | .error e => .error e
+      | .ok bs => .ok (b :: bs)
+
 /-- `Solution._get_vector` -/
 def getVector (values : List (String × Rat)) (v : PVec) : Except Exc (List Rat) :=
-  v.vars.mapM fun e => lookupValue values e.name
+  mapE (fun e => lookupValue values e.name) v.vars
 
 /-- `Solution._get_matrix`: `result[i, j] = self.values[mat[i, j].name]` for `i < rows`, `j < cols` -/
 def getMatrix (values : List (String × Rat)) (m : PMat) : Except Exc (List (List Rat)) :=
-  (List.range m.nrows).mapM fun i => (List.range m.ncols).mapM fun j =>
-    match gridGet m.grid i j with
-    | some e => lookupValue values e.name
-    | none => .error .index
+  mapE (fun i => mapE (fun j =>
+      match gridGet m.grid i j with
+      | some e => lookupValue values e.name
+      | none => .error .index) (List.range m.ncols)) (List.range m.nrows)
 
 end Optyx.Py.Solve
